@@ -67,6 +67,8 @@ MemoCatalogue ==
    qT23 |-> PMemo(Bind(Bind(EmptyFn, QK(0, "a"), 2), QK(1, "a"), 3), EmptyFn, [T |-> Pair2]),
    \* ... and a plain axis a = 3 next to it
    qT23a |-> PMemo(Bind(Bind([a |-> 3], QK(0, "a"), 2), QK(1, "a"), 3), EmptyFn, [T |-> Pair2]),
+   tpair |-> PMemo(EmptyFn, EmptyFn, [T |-> Pair2]),
+   tpair_a2 |-> PMemo([a |-> 2], EmptyFn, [T |-> Pair2]),
    qTv |-> PMemo(EmptyFn, Bind(Bind(EmptyFn, QK(0, "v"), [b |-> FALSE, s |-> <<2>>]), QK(1, "v"), [b |-> FALSE, s |-> <<2, 3>>]),
                  [T |-> Pair2])]
 Memos == {MemoCatalogue[m] : m \in MemoSet}
